@@ -192,6 +192,29 @@ PROPS["C16"] = conv_entry(
     "digit-type independence is judged on every event of every property (one outcome group per call); non-trivial = constant other than ZERO",
     lambda e: True)
 
+def text_entry(rule, nontrivial, **kw):
+    d = {"bin": "text", "modes": {"quick": ["debug"], "thorough": ["debug", "release"]}, "prims": True,
+         "rule": rule, "nontrivial": nontrivial, "mc": {"quick": [], "thorough": []}}
+    d.update(kw)
+    return d
+
+
+PROPS["C10"] = text_entry(
+    "one case = (parse|from_radix, type, byte string, radix): from_str_radix, FromStr, str::parse, parse_bytes, parse_str_radix, from_radix_be/le; strings: canonical numerals of 0, 1, r-1, r, MAX-1, MAX, MAX+1, |MIN|, |MIN|+1, short/extreme/random magnitudes "
+    "with sign in {none,+,-} and 0, 1, 2, cap, 2cap+1 leading zeros, upper/lower case; mutations inserting or substituting space, '_', sign, non-ASCII, NUL, 0xff, the digit equal to the radix; fixed malformed strings; radices 2..36 (2..256 for digit slices) plus out-of-range radices; "
+    "non-trivial = more characters than the canonical numeral of MAX has, or an error outcome",
+    lambda e: any(o.get("k") in ("err", "none", "panic") for o in e["fo"].values()) or len(e["a"][0]["v"]) > e["w"] // 5)
+PROPS["C11"] = text_entry(
+    "one case = (to_radix, type, value, radix): to_str_radix, to_radix_be, to_radix_le and the three print-then-parse round trips; values: 0, 1, r-1, r, MIN, MAX, a*r^j and a*r^j+1 (interior zero chunks), 2^k, boundary and random; radices: all powers of two, 10, 100, 255, 256, 3, 36, 85, random, a rotating third of 2..36, out-of-range radices; "
+    "non-trivial = radix is not 2/10/16 and the value has more than one digit in that radix",
+    lambda e: to_int(e["a"][1]) not in (2, 10, 16) and abs(to_int(e["a"][0])) >= max(2, to_int(e["a"][1])),
+    prims=False)
+PROPS["C12"] = text_entry(
+    "one case = (value, trait, +, #, 0, fill, alignment, width) drawn from 1152 literal format strings (8 traits x 8 flag subsets x 9 fill/alignment choices x width given or not) with widths {0, 1, len-1, len, len+1, len+7, 255, len+k}; "
+    "values: 0, 1, 9, 10, 100, +-1200, d*10^k, MIN, MAX, -1, interior zero digits and leading-zero nibbles at byte/u16/u32/u64 granularity, boundary, random; the same drivers run on u8..u128/i8..i128 calibrate the transcription of Rust's pad_integral; "
+    "non-trivial = a width larger than the text is requested or a flag is set",
+    lambda e: e["a"][2]["b"] or e["a"][3]["b"] or e["a"][4]["b"] or not e["a"][7].get("neg", False))
+
 KNOWN_PREDICATES = {}
 
 
